@@ -103,9 +103,11 @@ def near_tie(x: F) -> bool:
 
 
 def run(ctx: Ctx):
-    from translator import extract_time
+    from translator import extract_time, extract_timefmt
 
     extract_time.generate()
+    ch, info = extract_timefmt.generate()     # _dy2jd/_jd2dy and the dispatch idioms, from the `ast` of _time.py
+    ctx.extra["source_exprs_timefmt"] = info
     ctx.proof = common.prove("C02")
     Time = _imp()
     drv = ctx.driver
@@ -148,10 +150,25 @@ def run(ctx: Ctx):
         for fmt in ALL:
             one_format(ctx, Time, drv, scale, fmt, t0, j1, j2, epochs)
         ctx.traces += n * len(ALL)
-    two_part_and_shapes(ctx, Time, drv, epochs)
-    scalar_readout(ctx, Time, epochs)
-    text_wide_years(ctx, Time, drv)
-    text_mutations(ctx, Time, drv, epochs)
+    # every further section classifies what the real code returns; an exception that still escapes one (a value of
+    # an unexpected shape or type) is reported with the section as the failing call site, not as a tool failure
+    for name, fn in (("two_part_and_shapes", lambda: two_part_and_shapes(ctx, Time, drv, epochs)),
+                     ("gps_week_edges", lambda: gps_week_edges(ctx, Time, drv)),
+                     ("scalar_readout", lambda: scalar_readout(ctx, Time, epochs)),
+                     ("text_wide_years", lambda: text_wide_years(ctx, Time, drv)),
+                     ("text_mutations", lambda: text_mutations(ctx, Time, drv, epochs)),
+                     ("decimalyear_extras", lambda: decimalyear_extras(ctx, Time, drv)),
+                     ("input_layouts", lambda: input_layouts(ctx, Time, drv, epochs)),
+                     ("leap_second_texts", lambda: leap_second_texts(ctx, Time, drv))):
+        try:
+            fn()
+        except common.ToolFailure:
+            raise
+        except Exception as e:
+            import traceback
+            tb = traceback.extract_tb(e.__traceback__)[-1]
+            ctx.violate(f"unexpected-result:{name}", f"{type(e).__name__}: {e} (at {tb.filename.split('/')[-1]}:{tb.lineno} `{tb.line}`): "
+                        "the library returned a value of a shape/type no branch of the check expects", {"section": name})
 
 
 def check_intfrac(ctx, drv, t, case, epochs):
@@ -186,6 +203,18 @@ def valid(fmt, scale, inst: F) -> str:
         if inst < F(4888489, 2):
             return "pre1980"
     return "ok"
+
+
+def ws_oracle(ctx, x, inst: F, case):
+    """a gps_ws value is the week, the second of that week and the day of that week *of the instant*: whole week, day in
+    0..6, 0 <= seconds < 604800, day = floor(seconds / 86400), week*7 + day = whole days since 1980-01-06 (stated on
+    the real code; the theorem is `ws_roundtrip`)"""
+    w, s, d = frac(x[0]), frac(x[1]), frac(x[2])
+    days = (inst - F(4888489, 2)) // 1
+    ctx.count("gps_ws-oracle" + (":last-20us-of-day" if 0 < 1 - (inst - F(1, 2)) % 1 <= 20 * US else ""))
+    if not (w.denominator == 1 and d.denominator == 1 and 0 <= d <= 6 and 0 <= s < 604800 and s // 86400 == d and w * 7 + d == days):
+        ctx.violate("gps_ws-week-day", f"gps_ws read-out (week={float(w)!r}, seconds={float(s)!r}, day={float(d)!r}) is not the week/second/day of the instant "
+                    f"({float(days // 7)!r}, {float((inst - F(4888489, 2) - days // 7 * 7) * 86400)!r}, {float(days % 7)!r})", case)
 
 
 def one_format(ctx, Time, drv, scale, fmt, t0, j1, j2, epochs):
@@ -234,10 +263,12 @@ def one_format(ctx, Time, drv, scale, fmt, t0, j1, j2, epochs):
             if abs(frac(x) - m) > F(1, 10**15) * abs(m) + F(1, 10**18):
                 ctx.disagree(f"from_jds ({fmt})", case, a, repr(float(x)))
         elif fmt == "gps_ws":
+            ws_oracle(ctx, x, j1[i] + j2[i], case)
             mw, ms, md = (F(t) for t in a.split())
             if frac(x[0]) != mw or frac(x[2]) != md or abs(frac(x[1]) - ms) > F(1, 10**9):
-                if abs((frac(x[0]) * 7 * 86400 + frac(x[1])) - (mw * 7 * 86400 + ms)) <= F(1, 10**9):
-                    ctx.count("float-floor-edge(gps_ws day)")
+                near_midnight = min((j1[i] + j2[i] - F(1, 2)) % 1, 1 - (j1[i] + j2[i] - F(1, 2)) % 1) < F(1, 10**13)
+                if near_midnight and abs((frac(x[0]) * 7 * 86400 + frac(x[1])) - (mw * 7 * 86400 + ms)) <= F(1, 10**9):
+                    ctx.count("float-floor-edge(gps_ws day, < 1e-13 d from midnight)")
                 else:
                     ctx.disagree("from_jds (gps_ws)", case, a, [float(t) for t in x])
         elif fmt == "datetime":
@@ -373,11 +404,67 @@ def scalar_readout(ctx, Time, epochs):
         except Exception as e:
             ctx.violate("gps_ws-from-ndarray-raises", f"{type(e).__name__}: {e}", case)
             continue
+        # the two-part (weeks, seconds) input gives one epoch per element, the epochs it was read from
+        g1 = np.atleast_1d(np.asarray(g.jd1, dtype=float))
+        g2 = np.atleast_1d(np.asarray(g.jd2, dtype=float))
+        if np.ndim(g.jd1) != 1 or len(g1) != n or len(g2) != n or np.ndim(g) == 0 or len(g) != n:
+            ctx.violate("length:gps_ws", f"Time(weeks, val2=seconds, fmt='gps_ws') of {n} epochs gave jd1 of shape {np.shape(g.jd1)} and a value of shape {np.shape(g)}", case)
+            continue
+        src = [frac(p) + frac(q) for p, q in zip(np.asarray(t.jd1), np.asarray(t.jd2))]
+        if any(abs(frac(p) + frac(q) - w) > NS for p, q, w in zip(g1, g2, src)):
+            ctx.violate("two-part:gps_ws", f"Time(weeks, val2=seconds, fmt='gps_ws') of {n} epochs does not denote the epochs the weeks/seconds were read from", case)
+            continue
         for name, x in (("Time(ndarray of the values)", h), ("deepcopy", c)):
-            want = [frac(p) + frac(q) for p, q in zip(np.asarray(g.jd1), np.asarray(g.jd2))]
+            want = [frac(p) + frac(q) for p, q in zip(g1, g2)]
             got = [frac(p) + frac(q) for p, q in zip(np.atleast_1d(np.asarray(x.jd1)), np.atleast_1d(np.asarray(x.jd2)))]
             if len(got) != n or any(abs(p - q) > NS for p, q in zip(got, want)) or not np.array_equal(np.asarray(x), np.asarray(g)):
                 ctx.violate("gps_ws-from-ndarray", f"{name} of a {n}-epoch gps_ws time denotes other epochs / values", case)
+
+
+def gps_week_edges(ctx, Time, drv):
+    """(week, seconds) inputs up to 100 us before / after a day or week boundary (weeks 0, 1, 1023/1024, 2047/2048, random):
+    the value read back is the week/second/day of the instant (oracle) and equals the model's; scalar = array"""
+    rng = ctx.rng
+    weeks = [0, 1, 1023, 1024, 2047, 2048, 2049] + [rng.randint(2, 3000) for _ in range(ctx.budget(6, 60))]
+    offs = [1, 2, 5, 10, 19, 20, 21, 40, 100]
+    cases = []
+    for w in weeks:
+        for dday in (1, 2, 6, 7):
+            for k in rng.sample(offs, 4):
+                cases.append((w, dday * 86400 - k * 1e-6))
+            cases.append((w, float(dday * 86400 % 604800)))
+            cases.append((w, dday * 86400 % 604800 + rng.choice(offs) * 1e-6))
+    wk = np.array([float(w) for w, _ in cases])
+    sc = np.array([s for _, s in cases])
+    try:
+        t = Time(wk, val2=sc, fmt="gps_ws", scale="gps")
+        v = t.gps_ws
+    except Exception as e:
+        ctx.violate("gps_ws-edges-raise", f"{type(e).__name__}: {e}", {"fmt": "gps_ws"})
+        return
+    j1 = [frac(x) for x in np.asarray(t.jd1)]
+    j2 = [frac(x) for x in np.asarray(t.jd2)]
+    ans = drv.ask([f"c02 fromjds gps_ws gps {rs(a)} {rs(b)}" for a, b in zip(j1, j2)])
+    for i, (w, s) in enumerate(cases):
+        case = {"scale": "gps", "fmt": "gps_ws", "week": w, "seconds": s, "jd1": float(j1[i]), "jd2": float(j2[i])}
+        ctx.case(["gps", "gps_ws-edge", w, repr(s)], nontrivial=True)
+        x = scalar_value("gps_ws", v, i)
+        want = F(4888489, 2) + 7 * w + frac(s) / 86400
+        if abs(j1[i] + j2[i] - want) > NS:
+            ctx.violate("two-part:gps_ws", "Time(week, val2=seconds) does not denote 1980-01-06 + 7*week days + seconds to 1 ns", case)
+        ws_oracle(ctx, x, j1[i] + j2[i], case)
+        mw, ms, md = (F(z) for z in ans[i].split())
+        if frac(x[0]) != mw or frac(x[2]) != md or abs(frac(x[1]) - ms) > F(1, 10**9):
+            ctx.disagree("from_jds (gps_ws) next to a day/week boundary", case, ans[i], [float(z) for z in x])
+        if i % 7 == 0:
+            try:
+                xs = tuple(Time(float(w), val2=float(s), fmt="gps_ws", scale="gps").gps_ws)
+            except Exception as e:
+                ctx.violate("gps_ws-edges-raise", f"scalar: {type(e).__name__}: {e}", case)
+                continue
+            if any(float(p) != float(q) for p, q in zip(xs, x)):
+                ctx.violate("scalar-vs-array-readout:gps_ws", f"scalar {xs!r} / array element {x!r}", case)
+    ctx.traces += len(cases)
 
 
 def two_part_and_shapes(ctx, Time, drv, epochs):
@@ -613,6 +700,265 @@ def text_mutations(ctx, Time, drv, epochs):
                 ctx.disagree(f"to_jds ({fmt}) on a text that was not rendered [{name}]", {"fmt": fmt, "scale": scale, "text": t},
                              [str(x) for x in m], [str(x) for x in r])
         ctx.traces += len(texts)
+
+
+# -------------------------------------------------------------------------------------------------
+# decimal year: the year length the code uses, the refusals; input layouts of gps_ws; leap-second texts
+
+# IERS leap seconds (the day that ends with 23:59:60), typed from Bulletin C — independent of midgard's table
+LEAP_DEC31 = [1972, 1973, 1974, 1975, 1976, 1977, 1978, 1979, 1987, 1989, 1990, 1995, 1998, 2005, 2008, 2016]
+LEAP_JUN30 = [1972, 1981, 1982, 1983, 1985, 1992, 1993, 1994, 1997, 2012, 2015]
+
+
+def decimalyear_extras(ctx, Time, drv):
+    """`TimeDecimalYear._year2days` for every scale against the model and against the calendar (+ IERS leap seconds in
+    UTC, from 1972 on); decimal years outside 1..9999 are refused; the year-end neighbourhood in leap-second years"""
+    import calendar
+    from midgard.data import _time as T_
+
+    rng = ctx.rng
+    years = sorted(set([1, 2, 3, 4, 100, 400, 1582, 1600, 1700, 1800, 1899, 1900, 9998, 9999] + list(range(1955, 2030))
+                       + [rng.randint(1, 9998) for _ in range(ctx.budget(40, 1500))]))
+    for scale in SCALES:
+        ans = drv.ask([f"c02 year2days {scale} {y}" for y in years])
+        for y, a in zip(years, ans):
+            if scale == "utc" and y == 1:
+                continue     # the TAI image of 0001-01-01 UTC (extrapolated 1961 drift: -15 min) precedes datetime.min: OverflowError, outside 1900..2100
+            case = {"scale": scale, "fmt": "decimalyear", "year": y}
+            ctx.case([scale, "year2days", y], nontrivial=(scale == "utc" and 1961 <= y <= 2017) or calendar.isleap(y))
+            try:
+                got = frac(float(T_.TimeDecimalYear._year2days(y, scale)))
+            except Exception as e:
+                ctx.violate("year2days-raises", f"_year2days({y}, {scale!r}) raised {type(e).__name__}: {e}", case)
+                continue
+            m = F(a)
+            if abs(got - m) > F(1, 10**11):
+                ctx.disagree("TimeDecimalYear._year2days", case, a, str(got))
+            cal = 366 if calendar.isleap(y) else 365
+            if scale != "utc" or y >= 1972 or y <= 1959:
+                ls = (LEAP_DEC31.count(y) + LEAP_JUN30.count(y)) if scale == "utc" else 0
+                ctx.count(f"year2days:{scale}:{'leap' if cal == 366 else 'common'}:{ls}-leap-seconds")
+                if y <= 1959 and scale == "utc":
+                    continue        # before the table the code extrapolates the 1961 drift; only the model is compared
+                if abs(got - (cal + F(ls, 86400))) > F(1, 10**11):
+                    ctx.violate(f"year-length:{scale}", f"_year2days({y}, {scale!r}) = {float(got)!r}, the year has {cal} days and {ls} leap seconds", case)
+    # values outside the years datetime knows are refused (ValueError), the ends of the range are accepted
+    for v in (0.5, 0.999, -3.5, 10000.0, 10000.25, 12345.5, 1.5, 2.0, 9999.0, 9999.5, 9998.9999):   # not 1.0 … 1.4999: `_jd2dt` passes below datetime.min on its way (OverflowError; outside 1900..2100)
+        for scale in ("utc", "tt"):
+            if scale == "utc" and 1 <= v < 2:
+                continue     # see above: year 1 in UTC
+            case = {"scale": scale, "fmt": "decimalyear", "value": v}
+            ctx.case([scale, "decimalyear-range", v], nontrivial=True)
+            try:
+                t = Time(v, fmt="decimalyear", scale=scale)
+                r = ("ok", frac(float(t.jd1)) + frac(float(t.jd2)))
+            except ValueError:
+                r = ("err",)
+            except Exception as e:
+                ctx.violate("decimalyear-raises", f"Time({v}, fmt='decimalyear') raised {type(e).__name__}: {e}", case)
+                continue
+            a = drv.ask1(f"c02 tojds decimalyear {scale} {rs(frac(v))} -")
+            ctx.count(f"decimalyear-range:{r[0]}")
+            if (a == "err") != (r[0] == "err") or (r[0] == "ok" and abs(sum(F(x) for x in a.split()) - r[1]) > F(3, 10**10)):
+                ctx.disagree("to_jds (decimalyear) at the ends of the year range", case, a, [str(x) for x in r])
+    # around the end of a year that ends in a leap second, in UTC and TAI: the round trip stays within the resolution
+    for y in (1972, 2005, 2008, 2015, 2016, 2017):
+        d0 = (datetime(y + 1, 1, 1) - DT2000).days
+        for us in (-2 * 10**6, -10**6, -1, 0, 1, 10**6 - 1, 10**6, 2 * 10**6):
+            for scale in ("utc", "tai"):
+                day, u = divmod(d0 * DAY_US + us, DAY_US)
+                case = {"scale": scale, "fmt": "decimalyear", "jd1": float(F(4903089, 2) + day), "jd2": float(F(u, DAY_US))}
+                ctx.case([scale, "decimalyear-year-end", y, us], nontrivial=True)
+                ctx.count("decimalyear-year-end")
+                try:
+                    t = Time(case["jd1"], val2=case["jd2"], fmt="jd", scale=scale)
+                    v = float(t.decimalyear)
+                    t1 = Time(v, fmt="decimalyear", scale=scale)
+                except Exception as e:
+                    ctx.violate("decimalyear-raises", f"{type(e).__name__}: {e}", case)
+                    continue
+                a = drv.ask1(f"c02 fromjds decimalyear {scale} {rs(frac(float(t.jd1)))} {rs(frac(float(t.jd2)))}")
+                if abs(frac(v) - F(a)) > F(1, 10**15) * abs(F(a)) + F(1, 10**18):
+                    ctx.disagree("from_jds (decimalyear) at a year end", case, a, repr(v))
+                err = abs(frac(float(t1.jd1)) + frac(float(t1.jd2)) - frac(float(t.jd1)) - frac(float(t.jd2)))
+                if err > RES["decimalyear"]:
+                    ctx.violate("roundtrip:decimalyear", f"decimalyear round trip of a {scale} epoch {us} us from {y + 1}-01-01 is off by {float(err * 86400):.3e} s", case)
+    ctx.traces += len(years) * len(SCALES)
+
+
+def _outcome(t):
+    """a Time as ("one", [instant]) / ("many", [instants])"""
+    a1, a2 = np.asarray(t.jd1, dtype=float), np.asarray(t.jd2, dtype=float)
+    if a1.shape != a2.shape or a1.ndim > 1:
+        return ("shape", [str(a1.shape), str(a2.shape)])
+    if a1.ndim == 0:
+        return ("one", [frac(float(a1)) + frac(float(a2))])
+    return ("many", [frac(x) + frac(y) for x, y in zip(a1, a2)])
+
+
+def _model_outcome(a):
+    if a == "err":
+        return ("err", [])
+    toks = a.split()
+    v = [F(x) for x in toks[1:]]
+    return (toks[0], [v[i] + v[i + 1] for i in range(0, len(v), 2)])
+
+
+def _same_outcome(r, m, tol):
+    return r[0] == m[0] and len(r[1]) == len(m[1]) and all(abs(x - y) <= tol for x, y in zip(r[1], m[1]))
+
+
+def input_layouts(ctx, Time, drv, epochs):
+    """the constructor's dispatch on the shape of its input, real code vs `toJdsShaped` / `wsToJdsIn`: scalar, list and
+    ndarray of n = 0..5 values for every format; for gps_ws the WeekSec tuple, (n, 3) / (n, 2) arrays, one stored row,
+    0-d and 3-d arrays, the two-part input of n = 1..6 (n = 3 among them) — same kind (one / many / refused), same length,
+    same instants"""
+    rng = ctx.rng
+    sel = rng.sample(epochs, 6)
+    sel = [(d, us) for d, us in sel if d > -7000] or [(0, 1)]       # after 1980-01-06
+    while len(sel) < 6:
+        sel.append((rng.randint(-7000, 36000), rng.randint(0, DAY_US - 1)))
+    scale = "gps"
+    t0 = Time(np.array([float(F(4903089, 2) + d) for d, _ in sel]), val2=np.array([float(F(us, DAY_US)) for _, us in sel]), fmt="jd", scale=scale)
+    for fmt in ALL:
+        v = getattr(t0, fmt)
+        vals = [scalar_value(fmt, v, i) for i in range(len(sel))]
+        if fmt == "gps_ws":
+            toks = [f"{rs(frac(x[0]))},{rs(frac(x[1]))}" for x in vals]
+        else:
+            toks = [value_to_proto(fmt, x)[0] for x in vals]
+
+        def py(x):
+            return x.item() if isinstance(x, np.generic) and fmt not in TEXT else (str(x) if fmt in TEXT else x)
+
+        forms = []
+        if fmt != "gps_ws":
+            forms.append(("scalar", [toks[0]], lambda: Time(py(vals[0]), fmt=fmt, scale=scale)))
+            for n in (1, 2, 3, 5):
+                forms.append(("list", toks[:n], lambda n=n: Time([py(x) for x in vals[:n]], fmt=fmt, scale=scale)))
+                forms.append(("ndarray", toks[:n], lambda n=n: Time(np.array([py(x) for x in vals[:n]]), fmt=fmt, scale=scale)))
+        else:
+            forms.append(("scalar", [toks[0]], lambda: Time(float(vals[0][0]), val2=float(vals[0][1]), fmt=fmt, scale=scale)))
+            for n in (1, 2, 3, 4, 6):
+                forms.append(("list", toks[:n], lambda n=n: Time([float(x[0]) for x in vals[:n]], val2=[float(x[1]) for x in vals[:n]], fmt=fmt, scale=scale)))
+                forms.append(("ndarray", toks[:n], lambda n=n: Time(np.array([float(x[0]) for x in vals[:n]]), val2=np.array([float(x[1]) for x in vals[:n]]), fmt=fmt, scale=scale)))
+        tol = F(1, 10**15) + {"decimalyear": F(3, 10**10), "jyear": F(1, 10**11), "gps_seconds": F(1, 10**11)}.get(fmt, 0)
+        for kind, tk, f in forms:
+            case = {"scale": scale, "fmt": fmt, "input": kind, "n": len(tk), "values": [str(x) for x in vals[:len(tk)]]}
+            ctx.case([fmt, "layout", kind, len(tk)], nontrivial=True)
+            ctx.count(f"layout:{kind}:{len(tk)}")
+            try:
+                r = _outcome(f())
+            except ValueError:
+                r = ("err", [])
+            except Exception as e:
+                ctx.violate(f"shape-raises:{fmt}", f"{kind} input of {len(tk)} value(s) raised {type(e).__name__}: {e}", case)
+                continue
+            m = _model_outcome(drv.ask1(f"c02 shaped {fmt} {scale} {kind} " + " ".join(tk)))
+            if not _same_outcome(r, m, tol):
+                ctx.disagree(f"constructor dispatch on the input shape ({fmt})", case, [m[0]] + [str(x) for x in m[1]], [r[0]] + [str(x) for x in r[1]])
+            want_kind = "one" if kind == "scalar" else "many"
+            if r[0] != want_kind or len(r[1]) != len(tk):
+                ctx.violate(f"length:{fmt}", f"{kind} input of {len(tk)} value(s) gave {r[0]} with {len(r[1])} epoch(s)", case)
+    # --- gps_ws: every layout the constructor knows
+    from midgard.data._time import TimeGPSWeekSec as G_
+    wk = [float(rng.randint(0, 2500)) for _ in range(6)]
+    sc = [float(rng.randint(0, 604799)) + rng.choice([0.0, 0.5, 0.25]) for _ in range(6)]
+    dy = [float(int(s // 86400)) for s in sc]
+    pr = [f"{rs(frac(w))},{rs(frac(s))}" for w, s in zip(wk, sc)]
+    lay = []
+    for n in range(0, 7):
+        rows3 = np.array([[wk[i], sc[i], dy[i]] for i in range(n)]).reshape(n, 3)
+        rows2 = np.array([[wk[i], sc[i]] for i in range(n)]).reshape(n, 2)
+        lay.append((f"arr2 3 " + " ".join(f"{rs(frac(r[0]))},{rs(frac(r[1]))},{rs(frac(r[2]))}" for r in rows3), f"(n,3) n={n}", lambda a=rows3: Time(a, fmt="gps_ws", scale="gps")))
+        lay.append((f"arr2 2 " + " ".join(f"{rs(frac(r[0]))},{rs(frac(r[1]))}" for r in rows2), f"(n,2) n={n}", lambda a=rows2: Time(a, fmt="gps_ws", scale="gps")))
+        lay.append(("arr1 " + " ".join(rs(frac(x)) for x in wk[:n]), f"(n,) n={n}", lambda n=n: Time(np.array(wk[:n]), fmt="gps_ws", scale="gps")))
+        if n >= 1:
+            lay.append(("pair ndarray " + " ".join(pr[:n]), f"pair-ndarray n={n}", lambda n=n: Time(np.array(wk[:n]), val2=np.array(sc[:n]), fmt="gps_ws", scale="gps")))
+            lay.append(("pair list " + " ".join(pr[:n]), f"pair-list n={n}", lambda n=n: Time(wk[:n], val2=sc[:n], fmt="gps_ws", scale="gps")))
+            lay.append(("weeksec ndarray " + " ".join(pr[:n]), f"WeekSec-arrays n={n}",
+                        lambda n=n: Time(G_.WeekSec(np.array(wk[:n]), np.array(sc[:n]), np.array(dy[:n])), fmt="gps_ws", scale="gps")))
+    lay.append(("arr1 " + " ".join(rs(frac(x)) for x in (wk[0], sc[0], dy[0])), "one stored row (3,)", lambda: Time(np.array([wk[0], sc[0], dy[0]]), fmt="gps_ws", scale="gps")))
+    lay.append((f"pair scalar {pr[0]}", "pair-scalar", lambda: Time(wk[0], val2=sc[0], fmt="gps_ws", scale="gps")))
+    lay.append((f"weeksec scalar {pr[0]}", "WeekSec-scalars", lambda: Time(G_.WeekSec(wk[0], sc[0], dy[0]), fmt="gps_ws", scale="gps")))
+    lay.append(("other", "0-d array", lambda: Time(np.array(wk[0]), fmt="gps_ws", scale="gps")))
+    lay.append(("other", "3-d array", lambda: Time(np.zeros((1, 1, 3)) + 5.0, fmt="gps_ws", scale="gps")))
+    for toks, name, f in lay:
+        case = {"scale": "gps", "fmt": "gps_ws", "layout": name, "weeks": wk, "seconds": sc}
+        ctx.case(["gps_ws", "layout", name], nontrivial=True)
+        try:
+            r = _outcome(f())
+        except ValueError:
+            r = ("err", [])
+        except Exception as e:
+            ctx.violate("shape-raises:gps_ws", f"gps_ws input {name} raised {type(e).__name__}: {e}", case)
+            continue
+        ctx.count(f"gps_ws-layout:{name.split(' n=')[0]}:{r[0]}")
+        m = _model_outcome(drv.ask1("c02 wsin gps " + toks))
+        if not _same_outcome(r, m, F(1, 10**15)):
+            ctx.disagree("TimeGPSWeekSec._to_jds: where week and seconds are found", case, [m[0]] + [str(x) for x in m[1]], [r[0]] + [str(x) for x in r[1]])
+        if name.startswith(("pair", "WeekSec", "(n,3)")) and r[0] != "err":
+            n = int(name.split("n=")[1]) if "n=" in name else 1
+            want = [F(4888489, 2) + 7 * frac(wk[i]) + frac(sc[i]) / 86400 for i in range(n)]
+            if len(r[1]) != n or any(abs(x - y) > NS for x, y in zip(r[1], want)) or (r[0] == "one") != ("n=" not in name):
+                ctx.violate("length:gps_ws" if len(r[1]) != n else "two-part:gps_ws",
+                            f"gps_ws input {name}: {n} epoch(s) given, got {r[0]} with {len(r[1])} epoch(s) / other instants", case)
+    ctx.traces += len(lay)
+
+
+def leap_second_texts(ctx, Time, drv):
+    """UTC days that end in a leap second.  What the code does (and the model says): a text with second 60 is refused by
+    every text format in every scale (`datetime` has no second 60); `:sssss` = 86400 is accepted and is 00:00:00 of the
+    next day; no text format ever prints a second 60 — during the leap second the UTC label of a TAI epoch is the first
+    second of the next day, which is printed twice.  Real code vs model on all of these."""
+    days = [(y, 12, 31) for y in LEAP_DEC31] + [(y, 6, 30) for y in LEAP_JUN30]
+    days = ctx.rng.sample(days, ctx.budget(6, len(days))) + [(2016, 12, 31), (2015, 6, 30)]
+    for (y, mo, d) in days:
+        dt = datetime(y, mo, d)
+        doy = dt.timetuple().tm_yday
+        texts = {
+            "isot": [f"{y:04d}-{mo:02d}-{d:02d}T23:59:60", f"{y:04d}-{mo:02d}-{d:02d}T23:59:60.5", f"{y:04d}-{mo:02d}-{d:02d}T23:59:59.999999"],
+            "iso": [f"{y:04d}-{mo:02d}-{d:02d} 23:59:60", f"{y:04d}-{mo:02d}-{d:02d} 23:59:60.000001"],
+            "yday": [f"{y:04d}:{doy:03d}:23:59:60", f"{y:04d}:{doy:03d}:23:59:60.25", f"{y:04d}:{doy:03d}:23:59:61"],
+            "yyyydddsssss": [f"{y:04d}:{doy:03d}:86400", f"{y:04d}:{doy:03d}:86400.5", f"{y:04d}:{doy:03d}:86401", f"{y:04d}:{doy:03d}:86399"],
+            "yydddsssss": [f"{y % 100:02d}:{doy:03d}:86400", f"{y % 100:02d}:{doy:03d}:86399"],
+        }
+        for scale in ("utc", "tai"):
+            for fmt, tx in texts.items():
+                model = _model_to_jds_text(drv, fmt, scale, tx)
+                for t, m in zip(tx, model):
+                    r = _to_jds_text(Time, fmt, scale, t)
+                    ctx.case([fmt, "leap-second-text", scale, t], nontrivial=True)
+                    sec60 = ":60" in t or ":61" in t
+                    ctx.count(f"leap-second-text:{fmt}:{'second-60' if sec60 else 'sssss'}:{r[0]}")
+                    case = {"fmt": fmt, "scale": scale, "text": t}
+                    if r[0] != m[0] or (r[0] == "ok" and abs((r[1] + r[2]) - (m[1] + m[2])) > F(1, 10**15)):
+                        ctx.disagree(f"to_jds ({fmt}) on a leap-second text", case, [str(x) for x in m], [str(x) for x in r])
+        # the UTC label of TAI epochs around the leap second: offsets in quarter seconds from 23:59:59 UTC
+        if y < 1972:
+            continue
+        ls = sum(1 for (yy, mm) in [(a, 12) for a in LEAP_DEC31] + [(a, 6) for a in LEAP_JUN30] if (yy, mm) < (y, mo)) + 10   # TAI-UTC before this leap second
+        day = (dt - DT2000).days
+        for q in range(0, 13):
+            us = 86399 * 10**6 + q * 250000 + ls * 10**6          # TAI microsecond of day of (23:59:59 + q/4 s) UTC
+            dd, u = divmod(day * DAY_US + us, DAY_US)
+            try:
+                tt = Time(float(F(4903089, 2) + dd), val2=float(F(u, DAY_US)), fmt="jd", scale="tai")
+                got = {f: str(getattr(tt.utc, f)) for f in ("isot", "yyyydddsssss")}
+            except Exception as e:
+                ctx.violate("leap-second-label-raises", f"{type(e).__name__}: {e}", {"scale": "tai", "jd1": float(F(4903089, 2) + dd), "jd2": float(F(u, DAY_US))})
+                continue
+            for f, g in got.items():
+                a = drv.ask1(f"c02 utctext {f} {rs(frac(float(tt.jd1)))} {rs(frac(float(tt.jd2)))}")
+                mtxt = unhex(a.split()[2])
+                ctx.case([f, "leap-second-label", y, mo, q], nontrivial=True)
+                if q in (4, 5, 6, 7):
+                    ctx.count(f"during-leap-second:{f}:{g[10:] if f == 'isot' else g[9:]}")
+                if ":60" in g:
+                    ctx.violate("text-prints-second-60", f"{f} printed {g!r}", {"fmt": f})
+                if mtxt != g:
+                    ctx.disagree(f"UTC {f} label of a TAI epoch around a leap second", {"fmt": f, "scale": "tai", "jd1": float(tt.jd1), "jd2": float(tt.jd2)}, mtxt, g)
+    ctx.traces += len(days) * 13
 
 
 def replay(payload):
